@@ -1136,6 +1136,10 @@ class ReferenceResolver:
         self.parser = parser
         self.model = model
         self.pos_crossref_list = pos_crossref_list  # tool support
+        # Start positions of the entries of pos_crossref_list (same order).
+        # Used to keep the list sorted by reference position whatever the
+        # order the references get resolved in.
+        self._pos_crossref_starts = []
         self.delayed_crossrefs = []
         # Text positions of the references resolved so far, per list
         # attribute: {(id(obj), attr name): [positions, sorted]}. Used to
@@ -1206,7 +1210,10 @@ class ReferenceResolver:
                     and type(resolved) is not Postponed
                     and metamodel.textx_tools_support
                 ):
-                    self.pos_crossref_list.append(
+                    idx = bisect(self._pos_crossref_starts, crossref.position)
+                    self._pos_crossref_starts.insert(idx, crossref.position)
+                    self.pos_crossref_list.insert(
+                        idx,
                         RefRulePosition(
                             name=crossref.obj_name,
                             ref_pos_start=crossref.position,
@@ -1214,7 +1221,7 @@ class ReferenceResolver:
                             def_file_name=get_model(resolved)._tx_filename,
                             def_pos_start=resolved._tx_position,
                             def_pos_end=resolved._tx_position_end,
-                        )
+                        ),
                     )
 
                 # As a fall-back search builtins if given
